@@ -34,6 +34,7 @@ type simMsg struct {
 	dup      bool // a re-delivery: its response goes nowhere
 	piped    bool // sent by the pipeline writer (sendEntries = true)
 	lit      string
+	absK     []string // install-snapshot request: the log prefix the snapshot stands for (abstract shadow)
 }
 
 type simTask struct {
@@ -72,7 +73,8 @@ type simCluster struct {
 	committed map[uint64]string    // index -> entry (term/type/data)
 	nextPay   int
 	// abstract shadow (vh raft abs): static membership, no snapshots; every event is reported to coq/Abs/Exec.v
-	static bool
+	static bool // no membership changes
+	nosnap bool // no snapshots
 	calm   bool // elections and crashes are rare while a leader exists
 	abs    *absShadow
 	hint   absHint
@@ -416,7 +418,7 @@ func (c *simCluster) run(n *simNode, desc, ev string, fn func() (response, []str
 		if hintp != nil && hintp.kind != "" {
 			hint = *hintp
 		}
-		if hint.kind == "votereq" {
+		if hint.kind == "votereq" || hint.kind == "install" {
 			hint.granted = o.resp != nil && o.resp.getResult() == success
 		}
 		c.abs.record(c, n, ev, hint, false)
@@ -764,7 +766,7 @@ func (c *simCluster) doTimeout(n *simNode) {
 }
 
 func (c *simCluster) snapshotStep(n *simNode) {
-	if c.static {
+	if c.nosnap {
 		return
 	}
 	id := n.r.nid
@@ -938,6 +940,11 @@ func (c *simCluster) deliver(i int) {
 			case rpcAppendEntries:
 				q, es := decodeAppendWire(m.wire)
 				c.hint = absHint{kind: "recv", req: q, ents: es}
+			case rpcInstallSnap:
+				q := &installSnapReq{}
+				if err := q.decode(bytes.NewReader(m.wire[1:])); err == nil {
+					c.hint = absHint{kind: "install", term: q.term, from: q.src, absK: m.absK}
+				}
 			}
 		}
 		pv := c.run(dst, "recv "+m.kind.String()+fmt.Sprintf(" from %d", m.from), m.lit, func() (response, []string) {
@@ -1024,6 +1031,7 @@ func (c *simCluster) deliver(i int) {
 			return // the real code waits for a leader update first
 		}
 		ev := fmt.Sprintf("(ELeader (LFlrSnapInstalled %d %d))", m.from, m.reqLast)
+		c.hint = absHint{kind: "ack", from: m.from, match: m.reqLast}
 		c.run(dst, fmt.Sprintf("installSnapResp from %d", m.from), ev, func() (response, []string) {
 			// what sendInstallSnapReq does after a success response
 			rp.matchIndex = m.reqLast
@@ -1333,8 +1341,14 @@ func (c *simCluster) sendSnapshot(n *simNode, fid uint64, rq *appendReq) {
 		return
 	}
 	q := &installSnapReq{req: rq.req, lastIndex: snap.meta.index, lastTerm: snap.meta.term, lastConfig: snap.meta.config, size: snap.meta.size}
-	c.net = append(c.net, &simMsg{from: n.r.nid, to: fid, wire: wireReq(q, data), kind: rpcInstallSnap, epoch: c.epoch[n.r.nid], reqLast: snap.meta.index,
-		lit: fmt.Sprintf("(ESnapReq (mkSnapReq %d %d %d %d %s) 0)", q.term, q.src, q.lastIndex, q.lastTerm, coqConfig(q.lastConfig))})
+	m := &simMsg{from: n.r.nid, to: fid, wire: wireReq(q, data), kind: rpcInstallSnap, epoch: c.epoch[n.r.nid], reqLast: snap.meta.index,
+		lit: fmt.Sprintf("(ESnapReq (mkSnapReq %d %d %d %d %s) 0)", q.term, q.src, q.lastIndex, q.lastTerm, coqConfig(q.lastConfig))}
+	if c.abs != nil {
+		if lg := c.abs.logical(n); uint64(len(lg)) >= sat1(snap.meta.index) {
+			m.absK = lg[:sat1(snap.meta.index)]
+		}
+	}
+	c.net = append(c.net, m)
 }
 
 func (c *simCluster) changeConfig(n *simNode) {
